@@ -375,7 +375,8 @@ pub fn spell_text(rng: &mut Rng, t: &str, how: Spelling) -> (String, bool) {
         6 | 0..=2 if can_single => (format!("'{}'", pad(rng, t)), false),
         7 | 3..=5 if can_double => (format!("\"{}\"", pad(rng, t)), false),
         8 if can_single => (format!("'{}'", pad(rng, t)), false),
-        _ if !t.contains("\n;") => (format!(";{t}\n;"), true),
+        // a text field, closed after any of the three line ends
+        _ if !t.contains("\n;") && !t.contains("\r;") => (format!(";{t}{};", *rng.pick(&["\n", "\n", "\r\n", "\r"])), true),
         _ => (format!("'{t}'"), false),
     }
 }
